@@ -196,24 +196,24 @@ func servedKey(cfg *ProtoCfg, k []byte) bool {
 
 // expectation of the reply to one command
 type expect struct {
-	kind   string            // "none" | "line" | "values" | "close" | "line-or-close"
-	lines  []string          // admissible exact lines (kind line); entries ending in '*' are prefixes
+	kind   string             // "none" | "line" | "values" | "close" | "line-or-close"
+	lines  []string           // admissible exact lines (kind line); entries ending in '*' are prefixes
 	values map[string]*evalue // kind values: exactly these keys (nil entry = grammar only for that key, may be absent)
 	cas    bool
 	strict bool // values: the set of returned keys must be exactly the non-nil entries (plus optional nil ones)
 	// oom: the command may be refused with NOT_STORED for memory shortage (documented); the model is then rolled back
 	optionalLine bool // kind line: no reply at all is admissible too
 	errorOK      bool // kind values: a single SERVER_ERROR line is admissible instead (unparsable directory / record keys)
-	oom     bool
-	oomKey  string
-	oomPrev pkey
+	oom          bool
+	oomKey       string
+	oomPrev      pkey
 }
 
 type evalue struct {
 	data     []byte
 	flag     uint32
-	optional bool // may be missing
-	anyBody  bool // body not checked
+	optional bool  // may be missing
+	anyBody  bool  // body not checked
 	meta     *pkey // snapshot of the key's model state when the command was issued
 	metaLive *pkey // the live model entry (to adopt an observed version where the model does not know it)
 	metaExt  bool
@@ -713,7 +713,12 @@ func runScript(srv *testServer, conn *scriptConn, sc *connScript, model *pmodel,
 			var exps []expect
 			for j := i; j < i+n; j++ {
 				all = append(all, sc.Cmds[j].render()...)
-				exps = append(exps, model.apply(&sc.Cmds[j], &srv.cfg))
+				e := model.apply(&sc.Cmds[j], &srv.cfg)
+				exps = append(exps, e)
+				if e.kind == "close" {
+					n = j - i + 1 // the server closes here: what follows in the batch is never executed (and not sent)
+					break
+				}
 			}
 			conn.Feed(all)
 			closed, err := conn.WaitIdle(idleNet)
